@@ -223,11 +223,14 @@ func (matrix *SparseInt8Matrix) SetIdentity() {
   c := NewScalar(matrix.ElementType(), 1.0)
   for it := matrix.Iterator(); it.Ok(); it.Next() {
     i, j := it.Index()
-    if i == j {
-      it.Get().Set(c)
-    } else {
+    if i != j {
       it.Get().Reset()
     }
+  }
+  // the diagonal entries need not be stored yet
+  n, m := matrix.Dims()
+  for i := 0; i < n && i < m; i++ {
+    matrix.At(i, i).Set(c)
   }
 }
 func (matrix *SparseInt8Matrix) Reset() {
